@@ -45,15 +45,13 @@ def run(ctx: Ctx):
   ctx.include('R-C03-5', 'the sharded strategies (thread sub-shards, make(shard='
               '...)) run over shards rebuilt from recorded state and over'
               ' ranges of merged sequences: the rebuilt shard is the recorded'
-              ' one incl. its configuration (R-C09-2), explicit 0 bounds are'
-              ' honoured (R-C09-5) and a range never reads past its stop'
-              ' (R-C09-6)', _c09_shared, min_instances=7)
+              ' one incl. its configuration (R-C09-2) and a range never reads'
+              ' past its stop (R-C09-6)', _c09_shared, min_instances=5)
 
 
 def _c09_shared(sub):
   from mlmverif.props import c09
   sub.guard(c09.r2)
-  sub.guard(c09.r5)
   sub.guard(c09.r6)
 
 
